@@ -246,6 +246,10 @@ def model_check(events):
             m_ = e.d["mid"]
             if e.d["cmd"] == "monitor" and e.d["end"] == "ok":
                 reset()
+            elif e.d["end"] == "error":
+                # the message failed and the plan was told so: it is not work done, a rewind does not repeat it
+                if cache and cache[-1] == m_:
+                    cache.pop()
             elif e.d["end"] == "cancelled" and e.d.get("state") in ("pausing", "suspending"):
                 # interrupted in flight: it leaves the cache and is executed again, on behalf of the plan (or
                 # replay) that yielded it, once everything pushed by the interruption has run
